@@ -224,13 +224,15 @@ def call_keys(R):
     return [r[1] for r in R.rows if r[1].startswith(('BSC_', 'MSC_')) and r[1] in R.code_of]
 
 
-def run_windows(R, metas, host=None, env_extra=None, prelude=()):
+def run_windows(R, metas, host=None, env_extra=None, prelude=(), ilp32=False):
     """metas: [(key, first, last, tid, paths, gstr)] -> impl results"""
     cases = [{'events': window(R, k, f, l, t, p), 'gstr': g} for k, f, l, t, p, g in metas]
     # prelude: cases (possibly with other code tables) run first in the same process; their results are dropped
     req = {'cases': list(prelude) + cases}
     if host is not None:
         req['host'] = host
+    if ilp32:
+        req['ilp32'] = True
     out = vlib.run_impl('run_decoders.py', req, timeout=3000, env_extra=env_extra)
     out['results'] = out['results'][len(prelude):]
     return out
